@@ -77,6 +77,7 @@ fn judge_timeout(o: &TOut) {
         1_000_000_000.. => "ge1s",
         _ => "lt1s",
     };
+    let lim_class = if o.limit.subsec_nanos() % 1_000_000 != 0 { format!("{lim_class}+sub-ms-part") } else { lim_class.to_string() };
     if o.result == "timeout" {
         if o.elapsed < o.limit {
             vh::viol(
@@ -118,11 +119,47 @@ pub fn run_timeouts(seed: u64, reps: u64, dir: &str) {
         limits.push(Duration::from_millis(1));
         limits.push(Duration::from_millis(50));
     }
+    limits.push(Duration::new(1, r.range(600_000, 999_999) as u32)); // whole seconds + a sub-millisecond rest
     let mut hs = Vec::new();
     for (i, lim) in limits.into_iter().enumerate() {
         for op in 0..4u8 {
             let dir = dir.to_string();
-            hs.push(std::thread::spawn(move || {
+            hs.push(std::thread::spawn(move || one_timeout(op, i, lim, &dir)));
+        }
+    }
+    for h in hs {
+        match h.join() {
+            Ok(Some(o)) => judge_timeout(&o),
+            Ok(None) => vh::inconclusive("timeout scenario could not be set up"),
+            Err(_) => vh::inconclusive("timeout scenario thread panicked"),
+        }
+    }
+    // limits that are not a whole number of milliseconds (sub-millisecond, fractional, nanosecond-granular
+    // from the seed), one call at a time so that scheduling noise of sibling threads does not pad the
+    // measured time: a conversion that drops or rounds down part of the limit shows as an early Timeout
+    let mut fr: Vec<Duration> = [137_000u64, 900_000, 999_999, 1_700_000, 2_345_678, 2_999_000, 10_500_000, 10_999_999]
+        .iter()
+        .map(|n| Duration::from_nanos(*n))
+        .collect();
+    for _ in 0..(2 + 2 * reps.min(8)) {
+        fr.push(Duration::from_nanos(r.range(100_000, 1_000_000))); // below 1 ms
+        fr.push(Duration::from_nanos(r.range(1, 12) * 1_000_000 + r.range(600_000, 999_999))); // n ms + 0.6..1 ms
+        fr.push(Duration::from_nanos(r.range(1_000_001, 25_000_000))); // any
+    }
+    for (i, lim) in fr.into_iter().enumerate() {
+        for op in 0..4u8 {
+            match one_timeout(op, 100_000 + i, lim, dir) {
+                Some(o) => judge_timeout(&o),
+                None => vh::inconclusive("timeout scenario could not be set up"),
+            }
+        }
+    }
+    run_peer_acts();
+}
+
+/// One time-limited call whose peer never acts. `t0` is taken before the call and the elapsed time after
+/// it returned (CLOCK_MONOTONIC), so measured >= really waited: only "shorter than the limit" is judged.
+fn one_timeout(op: u8, i: usize, lim: Duration, dir: &str) -> Option<TOut> {
                 let o = match op {
                     0 => {
                         let p = format!("{dir}/to{i}\0");
@@ -196,16 +233,9 @@ pub fn run_timeouts(seed: u64, reps: u64, dir: &str) {
                     }
                 };
                 Some(o)
-            }));
-        }
-    }
-    for h in hs {
-        match h.join() {
-            Ok(Some(o)) => judge_timeout(&o),
-            Ok(None) => vh::inconclusive("timeout scenario could not be set up"),
-            Err(_) => vh::inconclusive("timeout scenario thread panicked"),
-        }
-    }
+}
+
+fn run_peer_acts() {
     // peer acts inside the limit: the call must deliver (counted; a Timeout here is only judged by the lower bound)
     for i in 0..3u64 {
         let (lfd, port) = sys::tcp_listener(4);
